@@ -112,6 +112,8 @@ def retype_merge(seq):
             if m['t'] == 'ChangeField' and m.get('ftype') and key in seen:
                 return True
             seen.add(key)
+        elif m['t'] == 'RenameField' and (m['model'], m['old']) in seen:
+            seen.add((m['model'], m['new']))      # the optimiser follows the field through its rename
     return False
 
 
